@@ -55,7 +55,8 @@ pub fn all_uci() -> &'static Vec<(String, u8, u8, u8)> {
     })
 }
 
-fn check_string(ctx: &mut Ctx, p: &Pos, b: &Board, s: &str, f: u8, t: u8, pr: u8, pseudo: &[Mv], legal: &[bool]) {
+#[allow(clippy::too_many_arguments)]
+fn check_string(ctx: &mut Ctx, p: &Pos, b: &Board, s: &str, f: u8, t: u8, pr: u8, pseudo: &[Mv], legal: &[bool], with_make: bool) {
     ctx.add(STR, 1);
     ctx.transitions += 1;
     let cand = (0..pseudo.len()).find(|&i| pseudo[i].from == f && pseudo[i].to == t && pseudo[i].promo == pr);
@@ -92,7 +93,10 @@ fn check_string(ctx: &mut Ctx, p: &Pos, b: &Board, s: &str, f: u8, t: u8, pr: u8
             }
         }
     }
-    // make::Uci applies exactly the legal ones
+    // make::Uci applies exactly the legal ones (on the full scans and for every existing move)
+    if !with_make && !want_semi {
+        return;
+    }
     let mk = Uci(s).make(b);
     if mk.is_ok() != want_legal {
         ctx.violate(json!({"kind": "pos", "fen": text::fen(p), "what": "Uci(str).make", "text": s}), format!("Uci(`{}`).make accepted={} but legal={}", s, mk.is_ok(), want_legal));
@@ -149,7 +153,7 @@ pub fn check_pos_mode(ctx: &mut Ctx, p: &Pos, b: &Board, mode: u8) {
     if full_scan {
         ctx.add(FULLSCAN, 1);
         for (s, f, t, pr) in u.iter() {
-            check_string(ctx, p, b, s, *f, *t, *pr, &pseudo, &legal);
+            check_string(ctx, p, b, s, *f, *t, *pr, &pseudo, &legal, true);
         }
     } else if mode == 1 {
         // strings whose source square is occupied, plus the lowest empty square as a probe
@@ -161,7 +165,7 @@ pub fn check_pos_mode(ctx: &mut Ctx, p: &Pos, b: &Board, mode: u8) {
             }
             for i in 0..320 {
                 let (s, ff, t, pr) = &u[f * 320 + i];
-                check_string(ctx, p, b, s, *ff, *t, *pr, &pseudo, &legal);
+                check_string(ctx, p, b, s, *ff, *t, *pr, &pseudo, &legal, false);
             }
         }
     }
